@@ -72,8 +72,21 @@ def r18_1_2(ctx: Ctx) -> None:
         all_rets = [r for r in walk_local(func) if isinstance(r, ast.Return) and r.value is not None]
         shortcuts = [r for r in all_rets if "cpus == 1" in fact_texts(cfg, r)]
         rets = [r for r in all_rets if r not in shortcuts]
-        ok = len(gets) == 1 and len(rets) >= 1 and all(txt(r.value) == result_name for r in rets)
-        others = [v for v in bound_from(func, result_name) if v is not (gets[0].value if gets else None)]
+        # plain copies of the result (an inlined helper hands it back under another name)
+        aliases = {result_name}
+        changed = True
+        while changed and result_name:
+            changed = False
+            for n in walk_local(func):
+                if isinstance(n, ast.Assign) and len(n.targets) == 1 and isinstance(n.targets[0], ast.Name) \
+                        and isinstance(n.value, ast.Name) and n.value.id in aliases and n.targets[0].id not in aliases:
+                    aliases.add(n.targets[0].id)
+                    changed = True
+        ok = len(gets) == 1 and len(rets) >= 1 and all(txt(r.value) in aliases for r in rets)
+        others = [v for name in aliases for v in bound_from(func, name) if v is not (gets[0].value if gets else None)
+                  and not (isinstance(v, ast.Name) and v.id in aliases)
+                  # an empty default that only a timed-out (hence raising, R18.2) run leaves in place
+                  and not (isinstance(v, (ast.List, ast.Tuple)) and not v.elts)]
         ctx.ob("R18.1", BASE, rets[0] if rets else func, qual, "returned value", ok and not others,
                "the value returned is exactly what get() delivered (no re-collection, filtering or reordering)",
                form=f"{stmt_key(gets[0]) if gets else ''}; return {txt(rets[0].value) if rets else ''}")
@@ -125,11 +138,24 @@ def r18_1_2(ctx: Ctx) -> None:
                 # normal exits reachable from the handler: each must lie behind the test `flag is False`
                 after = cfg.reach([hn])
                 exits = [src for src, _ in cfg.pred[cfg.exit] if src in after]
+                # the flag may be handed on under another name (a plain copy made after the handler)
+                flag_names = {flag}
+                grew = True
+                while grew:
+                    grew = False
+                    for n in after:
+                        a = cfg.nodes[n].ast
+                        if isinstance(a, ast.Assign) and len(a.targets) == 1 and isinstance(a.targets[0], ast.Name) \
+                                and isinstance(a.value, ast.Name) and a.value.id in flag_names and a.targets[0].id not in flag_names:
+                            flag_names.add(a.targets[0].id)
+                            grew = True
                 guarded = bool(exits) and all(
-                    f"not {flag}" in fact_texts(cfg, cfg.nodes[src].ast) for src in exits if cfg.nodes[src].ast is not None)
-                no_reset = not any(isinstance(cfg.nodes[n].ast, ast.Assign) and txt(cfg.nodes[n].ast.targets[0]) == flag
+                    any(f"not {name}" in fact_texts(cfg, cfg.nodes[src].ast) for name in flag_names)
+                    for src in exits if cfg.nodes[src].ast is not None)
+                no_reset = not any(isinstance(cfg.nodes[n].ast, ast.Assign) and txt(cfg.nodes[n].ast.targets[0]) in flag_names
                                    and not (isinstance(cfg.nodes[n].ast.value, ast.Constant)
                                             and cfg.nodes[n].ast.value.value is True)
+                                   and not (isinstance(cfg.nodes[n].ast.value, ast.Name) and cfg.nodes[n].ast.value.id in flag_names)
                                    for n in after)
                 if guarded and no_reset:
                     ok = True
@@ -250,8 +276,12 @@ def r18_4(ctx: Ctx) -> None:
     # layout vs property indices
     build = [c for c in calls(new) if txt(c.func) == "tuple.__new__"]
     layout: List[str] = []
-    if build and isinstance(build[0].args[1], ast.Tuple):
-        layout = [txt(e) for e in build[0].args[1].elts]
+    built = build[0].args[1] if build and len(build[0].args) > 1 else None
+    if isinstance(built, ast.Name):
+        values = bound_from(new, built.id)
+        built = values[0] if len(values) == 1 else built
+    if isinstance(built, ast.Tuple):
+        layout = [txt(e) for e in built.elts]
     props = {}
     for node in info.node.body:
         if isinstance(node, ast.FunctionDef) and any(txt(d) == "property" for d in node.decorator_list):
